@@ -268,30 +268,30 @@ theorem allIds_fromList_nodup (n : Net) (sel : List Id) (c : Bool) : (n.fromList
 
 /-! ### the id pool of the scenario: when the scenario-level loops do not raise -/
 
-/-- `_id_set.remove` in a loop does not raise when the ids are pairwise different and all in the pool; afterwards the
-pool has lost exactly these ids -/
-theorem Scn.loop_ok (f : Net → Id → Net) (loop : Scn → List Id → Scn × Option Err)
-    (hnil : ∀ s, loop s [] = (s, none))
-    (hcons : ∀ s i is, loop s (i :: is) =
-      match ({ s with net := f s.net i } : Scn).idsRemove i with
-      | (s2, none) => loop s2 is
-      | r => r)
-    (s : Scn) (is : List Id) (hnd : is.Nodup) (hin : ∀ i ∈ is, i ∈ s.ids) :
+/-- a scenario-level loop does not raise when the ids are pairwise different, all name elements of the network and all
+are in the pool; afterwards the pool has lost exactly these ids -/
+theorem Scn.loop_ok {kind : Net → List Id} {f : Net → Id → Net} {loop : Scn → List Id → Scn × Option Err}
+    (hl : LoopShape kind f loop) (hkind : ∀ m i j, j ≠ i → j ∈ kind m → j ∈ kind (f m i))
+    (s : Scn) (is : List Id) (hnd : is.Nodup) (hk : ∀ i ∈ is, i ∈ kind s.net) (hin : ∀ i ∈ is, i ∈ s.ids) :
     (loop s is).2 = none ∧ ∀ x, x ∈ (loop s is).1.ids ↔ x ∈ s.ids ∧ x ∉ is := by
   induction is generalizing s with
-  | nil => rw [hnil]; exact ⟨rfl, fun x => by simp⟩
+  | nil => rw [hl.1]; exact ⟨rfl, fun x => by simp⟩
   | cons i is ih =>
-    rw [hcons]
+    rw [hl.2]
+    have hki : (kind s.net).contains i = true := by simpa using hk i List.mem_cons_self
+    rw [if_pos hki]
     have hi : i ∈ s.ids := hin i List.mem_cons_self
     have e : ({ s with net := f s.net i } : Scn).idsRemove i =
         (({ net := f s.net i, ids := s.ids.filter (· != i) } : Scn), none) := by
       unfold Scn.idsRemove; simp [hi]
     rw [e]
     rw [List.nodup_cons] at hnd
-    have := ih ({ net := f s.net i, ids := s.ids.filter (· != i) } : Scn) hnd.2 (by
-      intro j hj
-      simp only [List.mem_filter, bne_iff_ne, ne_eq]
-      exact ⟨hin j (List.mem_cons_of_mem _ hj), fun e => hnd.1 (e ▸ hj)⟩)
+    have := ih ({ net := f s.net i, ids := s.ids.filter (· != i) } : Scn) hnd.2
+      (fun j hj => hkind s.net i j (fun e => hnd.1 (e ▸ hj)) (hk j (List.mem_cons_of_mem _ hj)))
+      (by
+        intro j hj
+        simp only [List.mem_filter, bne_iff_ne, ne_eq]
+        exact ⟨hin j (List.mem_cons_of_mem _ hj), fun e => hnd.1 (e ▸ hj)⟩)
     refine ⟨this.1, fun x => ?_⟩
     rw [this.2 x]
     simp only [List.mem_filter, bne_iff_ne, ne_eq, List.mem_cons, not_or]
